@@ -1,6 +1,15 @@
 /- helper lemmas for TjdProps/C01.lean, C05.lean, C15.lean (and C02) -/
 import Mathlib.Algebra.Ring.Defs
 import TjdModel.Autojac.Spec
+import TjdLemmas.Aj.Lists
+import TjdLemmas.Aj.VecAlg
+import TjdLemmas.Aj.EngineLemmas
+import TjdLemmas.Aj.Transforms
+import TjdLemmas.Aj.Chunks
+import TjdLemmas.Aj.Jac
+import TjdLemmas.Aj.Backward
+import TjdLemmas.Aj.Perm
+import TjdLemmas.Aj.Linear
 namespace Tjd.Autojac
 
 end Tjd.Autojac
